@@ -62,7 +62,7 @@ func QA(a, x float64) float64 {
 	return Q2(int(t), x)
 }
 
-const prec = 320
+const prec = 192
 
 var (
 	bigLn2 = mustBig("0.693147180559945309417232121458176568075500134360255254120680009493393621969694715605863326996418687542147932")
@@ -106,7 +106,7 @@ func bigExpNeg(x *big.Float) *big.Float {
 	return sum.SetMantExp(sum, int(-n))
 }
 
-// QBig evaluates Q(twoA/2, x) in 320-bit arithmetic (erfc of the half-integer case in float64,
+// QBig evaluates Q(twoA/2, x) in 192-bit arithmetic (erfc of the half-integer case in float64,
 // whose absolute error is below 2e-16).
 func QBig(twoA int, x float64) float64 {
 	if x <= 0 {
